@@ -413,8 +413,10 @@ func verifC07(j c07J, kind, m int) {
 // follows) and as last entry (a commodity directive with format precedes). The neighbours are
 // short: the cost of a path is the two parses.
 func c07Light(shapes int) c07J {
-	ctx := zzverif.Choice("ctx", 6)
+	ctx := zzverif.Choice("ctx", 7)
 	switch ctx {
+	case 6: // a transaction whose last line ends in an account name (no amount), directly followed by a P directive
+		return c07Of(1, 2, c07NbTx2, 3)
 	case 4: // a header-only transaction directly followed by a P directive
 		return c07Of(1, c07NbTx2, c07HeadOnly, 3)
 	case 5: // ... by a commodity directive with a format sub-directive
